@@ -26,6 +26,14 @@ How F1 is proved: the real body of snake_cyclers is executed symbolically for ev
 values and step t; numpy / cycler calls are replaced by pointwise assumed contracts over symbolic sequences (TRUSTED); the
 div/mod identities that connect the index computed by tile(repeat(concatenate(v, v[::-1]), R), T)[:N] with pos_i(t) are
 Lean-checked lemmas (contracts/c26_lemmas.py) instantiated at the step t - the SMT solver does linear reasoning only.
+F2/F3 are proved the same way for n <= 4 from per-axis Lean lemmas (carry chain of the mixed-radix counter, uniqueness of
+quotient and remainder).  The callers are verified against the callee's contract: they pass one cycler(motor_i, positions_i)
+per axis, in order, with the documented flags (the flag of the slowest axis is irrelevant by F1).
+
+Tasks that are *not* counted as proof (labelled bounded): `snake_cyclers.instances[..]` - the same contract on concrete
+lengths 1..3, where the arithmetic is linear (they exist to produce small counter-models for a wrong body, on which the
+non-linear queries of the symbolic tasks may end `unknown`); `native.sweep` - the real function with the real numpy / cycler
+against F1 and against the statement's clauses on every small grid.
 """
 import hashlib
 import itertools
@@ -46,7 +54,11 @@ F = f"{MU}:snake_cyclers"
 MAX_RANK = 4
 TRUSTED = [
     "rank is enumerated: F1 is proved for n = 1..4 axes (1 or 2 keys per axis for n <= 3) and F2/F3 for n = 1..4; for each rank "
-    "the lengths L_i >= 1, the flags, the position values and the step t are symbolic (all values); ranks > 4 are not covered",
+    "the lengths L_i >= 1, the flags, the position values and the step t are symbolic (all values); ranks > 4 are not covered; "
+    "the callers outer_list_product / outer_product are verified for n = 1..3 axes (lengths, positions, flags symbolic)",
+    "chunk_outer_product_args / classify_outer_product_args_pattern are executed (real bodies) with motors that satisfy "
+    "isinstance(m, Movable) and isinstance(m, Readable); toolz/cytools partition(n, seq) = consecutive n-tuples; "
+    "numpy.linspace(start, stop, num=num, endpoint=True) = some sequence of num values",
     "assumed contract numpy.array(list of scalars) = 1-D array with the same elements; position values are opaque *scalars* "
     "(a position that is itself a sequence would become a 2-D array; see NOT_DECIDED)",
     "assumed contract numpy.concatenate([a, b])[j] = a[j] for j < len a, b[j - len a] otherwise; length len a + len b",
